@@ -28,6 +28,7 @@ func init() {
 	register("C16", "K-REST", ruleKRest)
 	register("C16", "K-PRE", ruleKPre)
 	register("C16", "S-GLOBAL", ruleSGlobal)
+	register("C16", "B-PRIM", ruleBPrim)
 
 	register("C10", "G-TOKENS", ruleGTokens)
 	register("C10", "G-LEVELS", ruleGLevels)
@@ -46,6 +47,42 @@ func init() {
 	register("C15", "A-CELLS", ruleACells)
 	register("C15", "X-BOUNDS", ruleXBounds)
 	register("C15", "X-RESULT", ruleXResult)
+
+	register("C09", "B-PRIM", ruleBPrim)
+	register("C09", "B-ARGS", ruleBArgs)
+	register("C09", "X-BOUNDS", ruleXBounds)
+	register("C09", "X-CENSUS", ruleXCensus)
+	register("C09", "N-RESTORE", ruleNRestore)
+
+	register("C08", "A-OPS", ruleAOps)
+	register("C08", "B-PRIM", ruleBPrim)
+	register("C08", "G-LEVELS", ruleGLevels)
+	register("C08", "N-RESTORE", ruleNRestore)
+	register("C08", "X-CENSUS", ruleXCensus)
+
+	register("C14", "B-NAMETEST", ruleBNameTest)
+	register("C14", "G-EXPECT", ruleGExpect)
+	register("C14", "B-PRIM", ruleBPrim)
+	register("C14", "B-ARGS", ruleBArgs)
+
+	register("C03", "N-POS", ruleNPos)
+	register("C03", "S-RESET", ruleSReset)
+	register("C03", "A-DISPATCH", ruleADispatch)
+	register("C03", "N-OWN", ruleNOwn)
+
+	register("C12", "N-FRAME", ruleNFrame)
+	register("C12", "N-ITER", ruleNIter)
+	register("C12", "S-ENTRY", ruleSEntry)
+	register("C12", "N-OWN", ruleNOwn)
+	register("C12", "C12-REV", ruleRev)
+	register("C12", "B-PRIM", ruleBPrim)
+
+	register("C11", "B-HASH", ruleBHash)
+	register("C11", "N-OWN", ruleNOwn)
+	register("C11", "N-RESTORE", ruleNRestore)
+	register("C11", "S-RESET", ruleSReset)
+	register("C11", "S-PROP", ruleSProp)
+	register("C11", "G-ABBREV", ruleGAbbrev)
 
 	register("C13", "N-OWN", ruleNOwn)
 	register("C13", "N-RESTORE", ruleNRestore)
